@@ -575,6 +575,20 @@ func (s *HASyncer) performFullSync() error {
 			)
 		}
 	}
+	// The snapshot replaces the standby's table: a session that is not in it
+	// was deleted on the active while no stream was attached, and no delete
+	// message will ever arrive for it.
+	for _, existing := range s.store.GetAllSessions() {
+		if _, ok := s.receivedSessions[existing.SessionID]; ok {
+			continue
+		}
+		if err := s.store.DeleteSession(existing.SessionID); err != nil {
+			s.logger.Warn("Failed to delete stale session",
+				zap.String("session_id", existing.SessionID),
+				zap.Error(err),
+			)
+		}
+	}
 	s.receivedMu.Unlock()
 
 	s.mu.Lock()
